@@ -2,6 +2,7 @@ import NloptModel.Model.ApiDriver
 import NloptModel.Model.UtilDriver
 import NloptModel.Model.RBTree
 import NloptModel.Model.Sobol
+import NloptModel.Model.WrapDriver
 /-! `nlopt_model <stream>`: line-protocol driver.  Reads operation lines on stdin, prints one
     canonical result line per operation.  Arithmetic is the hardware's (through `Float`). -/
 open Nlopt
@@ -38,5 +39,6 @@ def main (args : List String) : IO UInt32 := do
   | ["mt"] => loop stdin stdout ({} : UtilDrv.MtState) (UtilDrv.mtStep nativeArith); return 0
   | ["rb"] => loop stdin stdout RB.Tree.nil (fun t l => if l.trimAscii.toString == "reset" then (RB.Tree.nil, "ok") else RB.rbStep t l); return 0
   | ["sobol"] => loop stdin stdout Sobol.State.empty Sobol.sobolStep; return 0
+  | ["wrap"] => loop stdin stdout ({} : WrapDrv.Rec) (WrapDrv.step nativeArith); return 0
   | ["stop"] => loop stdin stdout () (UtilDrv.stopStep nativeArith); return 0
   | _ => IO.eprintln "usage: nlopt_model <api|...>"; return 2
